@@ -285,6 +285,7 @@ func (r *rwRT) ruleImport() {
 	pos := r.w.FnPos(fn)
 	var seqAns string
 	in := r.interp(rwConfig{root: fn, boundaries: map[string]bool{"rewriteFile": false, "attachComment": true, "rewriteForRanges": true, "rewriteIter": true, "mkYieldFromRewriter": true, "mkYieldRewriter": true, "collectYieldFunc": true}})
+	in.MaxVisits = 12 // the passes may be run from a table in a loop
 	in.OnCall = wrapOnCall(in.OnCall, func(cc *CallCtx) []Answer {
 		if cc.Fn == nil {
 			return nil
